@@ -791,7 +791,7 @@ def main():
     impls, results = run_cases(chk, cases)
     distinct = set()
     hist = {"plain": 0, "breaks": 0, "human": 0, "corpus": n_corpus, "formats": {}, "dumps": {}, "with_record_mean": 0, "with_exclusions": 0, "f5_class": 0, "f6_class": 0}
-    reported = set()
+    reported, queue = set(), []
     for idx, (c, im, probs) in enumerate(zip(cases, impls, results)):
         if ("raised" in im or "configure" in im) and not probs:
             continue
@@ -814,10 +814,16 @@ def main():
                 continue
             # known findings are reported from the fixed corpus inputs (first occurrence); anything else from wherever it shows
             reported.add(full)
-            chk.violation(full, msg, {"case": c, "problems": probs[:8], "traceback": im.get("traceback"), "correspondence": "harness/c20.py vs Model.Logger.c20_check / Model.Csv.csv_run"},
-                          found_input=is_oracle)
-        if len([s for s in reported if s not in KNOWN]) >= 3:
-            break
+            queue.append((full, msg, {"case": c, "problems": probs[:8], "traceback": im.get("traceback"), "correspondence": "harness/c20.py vs Model.Logger.c20_check / Model.Csv.csv_run"},
+                          is_oracle))
+    # statement-level oracle failures (concrete failing inputs) are reported first; model-only disagreements go into the remaining slots
+    emitted = 0
+    for q_sig, q_msg, q_replay, q_found in sorted(queue, key=lambda q: not q[3]):
+        if q_sig not in KNOWN:
+            if emitted >= 3:
+                continue
+            emitted += 1
+        chk.violation(q_sig, q_msg, q_replay, found_input=q_found)
     chk.coverage["evaluations"] = len(cases)
     chk.coverage["traces_validated_against_impl"] = len(cases)
     chk.coverage["distinct_nontrivial"] = len(distinct)
